@@ -186,6 +186,8 @@ func (c *compiler) compileTryStatement(v *ast.TryStatement, needResult bool) {
 	}
 	var finallyOffset int
 	if v.Finally != nil {
+		// the shortcut only applies to the branch statements in the 'try' and 'catch' blocks, not to those in the 'finally' block itself
+		c.block.breaking = nil
 		c.emit(enterFinally{})
 		finallyOffset = len(c.p.code) - lbl // finallyOffset should not include enterFinally
 		if bodyNeedResult && finallyBreaking != nil && lp == -1 {
